@@ -361,7 +361,9 @@ def number_grammar_ambiguous(s):
 JUNK_CHARS = [
     "x", "#", "!", "?", "(", ")", "%", "&", ";", ":", "'", '"', "_", "=", "/", "\\", "b", "d", "g", "k", "n", "p",
     "E", "e", ".", "-", "+", ",", "\x00", "\x7f", "\xa0", "\xe9", "−", "\U0001f600", "١", " ", "\x0b",
-    "\x1f", "﻿",
+    "\x1f", "﻿",    # letters that upper/lower/case-fold onto command letters or digits: long s, Kelvin sign, dotless i, dotted I,
+    # fullwidth forms, mathematical alphanumerics, superscript digits
+    "\u017f", "\u212a", "\u0131", "\u0130", "\uff2d", "\uff4c", "\uff11", "\U0001d40c", "\u00b2", "\u2170",
 ]
 JUNK_STRINGS = ["NaN", "inf", "--", "..", "1e", "e5", "0x10", "1,,2", "- 1", "+", "-", ".", "1.2.3e", "z5", "none", "∞"]
 # numbers at the edges of what a double can hold, and digit strings longer than any double
